@@ -73,11 +73,12 @@ TABLE = {
            ("AttrListProofs.v", ["process_attribute_classifies", "resolve_attributes_in_order", "resolve_attributes_unique",
                                  "resolve_attributes_unique_eqb", "resolve_attributes_namespace"])]),
  "C06": dict(
-   intro="C06 -- names and in-scope namespaces: the element's namespace range denotes\n   Spec.scope_of (own declarations, then inherited bindings not re-declared); names resolve to the\n   first binding of their prefix; duplicate declarations are detected; the 2^16 limit.\n   (scopes_refine carries the hypothesis that the parent's scope has unique prefixes, which\n   scope_prefixes_unique re-establishes.)",
-   imports=["From RX.Spec Require Scope.", "From RX.Proofs Require Import ScopeProofs ScopeParse."],
+   intro="C06 -- names and in-scope namespaces: the element's namespace range denotes\n   Spec.scope_of (own declarations, then inherited bindings not re-declared); names resolve to the\n   first binding of their prefix; duplicate declarations are detected; the 2^16 limit.\n   (scopes_refine carries the hypothesis that the parent's scope has unique prefixes, which\n   scope_prefixes_unique re-establishes.)  Whole documents on the fragment of Spec/CstNs.v (the Cst fragment with\n   qualified names and xmlns / xmlns:p declarations interleaved with attributes; empty URIs, xml:lang, p:xmlns\n   attributes included): every rendering of a namespace-well-formed abstract document parses to exactly its\n   meaning, where the tag's namespace, each attribute's namespace and each element's in-scope list\n   (Node::namespaces()) are computed ONLY with Spec/Scope.v from the WRITTEN declarations and the parent's scope\n   (parse_render_sem_ns: view = Some (sem c)).  Two resource hypotheses, stated with spec functions: at most 65535\n   distinct declared bindings (the documented limit) and a namespace table within u32::MAX entries.",
+   imports=["From RX.Spec Require Scope.", "From RX.Spec Require Cst CstNs.", "From RX.Proofs Require Import ScopeProofs ScopeParse CstNsView CstNsMain."],
    groups=[("ScopeParse.v", ["parse_scopes_ok", "parse_names_ok"]),
            ("ScopeProofs.v", ["scopes_refine", "scope_prefixes_unique", "names_resolve", "unknown_prefix_rejected", "unknown_prefix_never_ok",
-                              "duplicate_declaration_rejected", "push_ns_appends", "push_ns_limit", "ns_values_limit_is"])]),
+                              "duplicate_declaration_rejected", "push_ns_appends", "push_ns_limit", "ns_values_limit_is"]),
+           ("CstNsMain.v", ["parse_render_sem_ns", "layout_insensitive_ns"], "Import CstNs.")]),
  "C09": dict(
    intro="C09 -- entity expansion is bounded yet not over-restricted.  (1) the loop detector is sound and complete\n   w.r.t. the trace specification, with the documented numbers (10, 255) against constants regenerated from the\n   source; (2) the node budget over a whole parse: a successfully parsed document has at most\n   1 + len + 256 * len * amp nodes (hence <= 256 * (len + 1) * (amp + 1)), for every input and all options;\n   without a DOCTYPE at most len + 1 nodes; (3) the byte budget: the text of all Text nodes plus all attribute\n   values (text_len + value_len, BudgetBytesBuild.v) is at most len + 256 * len * amp bytes.",
    imports=["From RX.Spec Require Import Detector.", "From RX.Proofs Require Import DetectorProofs OptionsParam OptionsBuild OptionsMain OptionsDtd BudgetStream BudgetTok BudgetBuild BudgetAcct BudgetMain BudgetNoEnt BudgetBytesBuild BudgetBytesTok BudgetBytesAcct BudgetBytesMain CycleStream CycleContent CycleAttr CycleEntered."],
@@ -108,10 +109,11 @@ TABLE = {
                                "has_tag_name_spec", "has_tag_name_non_element", "lookup_namespace_uri_first", "default_namespace_is_lookup_none",
                                "lookup_prefix_xml", "lookup_prefix_first", "attr_eqb_spec"])]),
  "C13": dict(
-   intro="C13 -- source ranges are valid and designate the construct they belong to.  For every parsed document\n   (entity-expanded nodes included): every node and attribute range is a valid slice of the input (start <=\n   end <= len, char boundaries), the root range is the whole input, every attribute lies strictly inside its\n   element's range with its qname sub-range inside it; for documents without a DOCTYPE a child's range lies\n   within its parent's and a node starts after its previous sibling ends.  Shape clauses, from the lexer\n   post-conditions: the range of a comment token is exactly '<!--' text '-->', of a PI token '<?' target ...\n   '?>', a start tag runs from '<' to its '>' and the name follows the '<', an end tag from '</' to '>';\n   text / CDATA ranges are the token's source.  Attribute sub-ranges (below the documented saturation limits):\n   the qname sub-range ends where the local name ends, the value sub-range is delimited by the same quote on\n   both sides, ends one byte before the attribute's end, equals a borrowed value's slice, and only whitespace and\n   one '=' separate it from the qname.  Shift: prepending whitespace to an input that starts with neither a BOM nor\n   an XML declaration yields the same document with every non-root range moved by exactly that length.",
-   imports=["From RX.Proofs Require Import LexerProofs NoPanicTokenizer RangeTokenizer RangeArena RangeInv RangeBuilder RangeParse RangeAttrLocal RangeAttrTok RangeAttrParse RangeShiftBase RangeShiftStream RangeShiftTokenizer RangeShiftBuilder RangeShiftParse RangeShiftFinal."],
+   intro="C13 -- source ranges are valid and designate the construct they belong to.  For every parsed document\n   (entity-expanded nodes included): every node and attribute range is a valid slice of the input (start <=\n   end <= len, char boundaries), the root range is the whole input, every attribute lies strictly inside its\n   element's range with its qname sub-range inside it; for documents without a DOCTYPE a child's range lies\n   within its parent's and a node starts after its previous sibling ends.  Shape clauses, from the lexer\n   post-conditions: the range of a comment token is exactly '<!--' text '-->', of a PI token '<?' target ...\n   '?>', a start tag runs from '<' to its '>' and the name follows the '<', an end tag from '</' to '>';\n   text / CDATA ranges are the token's source.  Attribute sub-ranges (below the documented saturation limits):\n   the qname sub-range ends where the local name ends, the value sub-range is delimited by the same quote on\n   both sides, ends one byte before the attribute's end, equals a borrowed value's slice, and only whitespace and\n   one '=' separate it from the qname.  Shift: prepending whitespace to an input that starts with neither a BOM nor\n   an XML declaration yields the same document with every non-root range moved by exactly that length.\n   Whole documents on the fragment of Spec/Cst.v: the range of every node is exactly the span of its construct in\n   the rendering (spans c, CstRangeDefs.v: an element from its '<' to the '>' of its end or empty-element tag), the\n   root range is the whole input, attribute range / qname / value sub-ranges are exactly the written name-to-quote,\n   name and between-the-quotes spans (attr_spans c); hence the slice shapes C13 names (EXTRA below).",
+   imports=["From RX.Proofs Require Import LexerProofs NoPanicTokenizer RangeTokenizer RangeArena RangeInv RangeBuilder RangeParse RangeAttrLocal RangeAttrTok RangeAttrParse RangeShiftBase RangeShiftStream RangeShiftTokenizer RangeShiftBuilder RangeShiftParse RangeShiftFinal CstRangeDefs CstRangeMain.", "From RX.Spec Require Cst."],
    groups=[("RangeParse.v", ["parse_ranges_valid", "parse_attr_ranges_inside", "parse_ranges_nest", "parse_ranges_siblings"]),
            ("RangeAttrParse.v", ["parse_attr_subranges"]), ("RangeShiftFinal.v", ["parse_shift_whitespace_partial"]),
+           ("CstRangeMain.v", ["parse_render_ranges", "parse_render_attr_ranges"]),
            ("RangeTokenizer.v", ["tokenizer_token_ranges"], "Local Notation token := Tokenizer.token."),
            ("LexerProofs.v", ["parse_comment_post", "parse_pi_post", "parse_cdata_post", "parse_text_post", "parse_element_tokens",
                               "parse_close_element_post"], "Local Notation token := Tokenizer.token.", "forall (text : bytes),")]),
@@ -134,12 +136,13 @@ TABLE = {
    groups=[("OptionsMain.v", ["default_options_are", "dtd_flag_relation"]), ("OptionsDtd.v", ["no_doctype_no_difference"]),
            ("DefaultEntities.v", ["no_entities_without_dtd"]), ("DefaultMain.v", ["content_le_input"])]),
  "C18": dict(
-   intro="C18 -- borrowed strings are slices of the input; undecoded content is not copied.  In the model a\n   borrowed string is an offset pair; every such pair in a parsed document is a valid slice of the input\n   (start <= end <= len, both on char boundaries), the only 'static strings are those of the xml\n   namespace, and the fast paths keep text / CDATA / attribute values borrowed.",
-   imports=["From RX.Proofs Require Import BorrowLocal BorrowTokenizer BorrowParse TextMerge."],
+   intro="C18 -- borrowed strings are slices of the input; undecoded content is not copied.  In the model a\n   borrowed string is an offset pair; every such pair in a parsed document is a valid slice of the input\n   (start <= end <= len, both on char boundaries), the only 'static strings are those of the xml\n   namespace, and the fast paths keep text / CDATA / attribute values borrowed.  Whole documents on the fragment of\n   Spec/Cst.v (parse_render_storage): every Text node and every attribute value is stored Borrowed with exactly the\n   span where it is written, and every name (tag, attribute, PI target, PI value, comment text) is the slice of its\n   written occurrence (shapes c / attr_spans c, CstRangeDefs.v).",
+   imports=["From RX.Spec Require Cst.", "From RX.Proofs Require Import BorrowLocal BorrowTokenizer BorrowParse TextMerge CstRangeDefs CstRangeMain."],
    groups=[("BorrowLocal.v", ["mk_slice_valid", "fast_path_text", "fast_path_attr", "fast_path_cdata"]),
            ("BorrowTokenizer.v", ["tokenizer_tokens_ok", "tokenizer_content_tokens_ok"], "Local Notation token := Tokenizer.token."),
            ("BorrowParse.v", ["token_preserves_borrows", "parse_borrows_ok", "static_only_xml"]),
-           ("TextMerge.v", ["single_fragment_storage"])]),
+           ("TextMerge.v", ["single_fragment_storage"]),
+           ("CstRangeMain.v", ["parse_render_storage"])]),
  "C19": dict(
    intro="C19 -- the `positions` feature only adds API surface: the fields it removes (NodeData.range,\n   AttributeData.range / qname_len / eq_len) are write-only for the parser.  A builder that strips them after\n   every token produces exactly the stripped document and the same errors, for the tokenizer run and for the\n   whole parse (parse_np_correct).  Determinism itself holds of the model by construction (it is a function)\n   and is decided for the code by the feature-set / repetition correspondence.",
    imports=["From RX.Proofs Require Import OptionsParam PositionsNonInterf."],
@@ -153,6 +156,53 @@ TABLE = {
 
 
 EXTRA = {
+ "C13": """
+(* the slice shapes of C13, for every node of every parsed rendering of the Cst fragment *)
+Theorem C13_element_slice_shape :
+  forall (c : Cst.doc) (opt : options) (d : document),
+  Cst.wf_doc c = true -> N.of_nat (length (Cst.sem c)) < nodes_limit opt ->
+  N.of_nat (length (Cst.render c)) <= u32_max -> parse (Cst.render c) opt = Ok d ->
+  forall (id : N) (nd : node_data) (ns : option N) (local : slice) (ar nss : range),
+  nth_N (d_nodes d) id = Some nd -> nd_kind nd = KElement ns local ar nss ->
+  exists mid : list N,
+    sub (Cst.render c) (fst (nd_range nd)) (snd (nd_range nd)) =
+    [60] ++ slice_bytes (Cst.render c) local ++ mid ++ [62].
+Proof. exact element_slice_shape. Qed.
+Print Assumptions C13_element_slice_shape.
+
+Theorem C13_comment_slice_shape :
+  forall (c : Cst.doc) (opt : options) (d : document),
+  Cst.wf_doc c = true -> N.of_nat (length (Cst.sem c)) < nodes_limit opt ->
+  N.of_nat (length (Cst.render c)) <= u32_max -> parse (Cst.render c) opt = Ok d ->
+  forall (id : N) (nd : node_data) (s : slice),
+  nth_N (d_nodes d) id = Some nd -> nd_kind nd = KComment s ->
+  sub (Cst.render c) (fst (nd_range nd)) (snd (nd_range nd)) =
+  [60; 33; 45; 45] ++ slice_bytes (Cst.render c) s ++ [45; 45; 62].
+Proof. exact comment_slice_shape. Qed.
+Print Assumptions C13_comment_slice_shape.
+
+Theorem C13_pi_slice_shape :
+  forall (c : Cst.doc) (opt : options) (d : document),
+  Cst.wf_doc c = true -> N.of_nat (length (Cst.sem c)) < nodes_limit opt ->
+  N.of_nat (length (Cst.render c)) <= u32_max -> parse (Cst.render c) opt = Ok d ->
+  forall (id : N) (nd : node_data) (target : slice) (value : option slice),
+  nth_N (d_nodes d) id = Some nd -> nd_kind nd = KPI target value ->
+  exists mid : list N,
+    sub (Cst.render c) (fst (nd_range nd)) (snd (nd_range nd)) =
+    [60; 63] ++ slice_bytes (Cst.render c) target ++ mid ++ [63; 62].
+Proof. exact pi_slice_shape. Qed.
+Print Assumptions C13_pi_slice_shape.
+
+Theorem C13_text_slice_shape :
+  forall (c : Cst.doc) (opt : options) (d : document),
+  Cst.wf_doc c = true -> N.of_nat (length (Cst.sem c)) < nodes_limit opt ->
+  N.of_nat (length (Cst.render c)) <= u32_max -> parse (Cst.render c) opt = Ok d ->
+  forall (id : N) (nd : node_data) (st : storage),
+  nth_N (d_nodes d) id = Some nd -> nd_kind nd = KText st ->
+  exists s : slice, st = Borrowed (SIn s) /\\ (sl_start s, sl_end s) = nd_range nd.
+Proof. exact text_slice_shape. Qed.
+Print Assumptions C13_text_slice_shape.
+""",
  "C09": """
 (* (4) reference cycles end in EntityReferenceLoop.  S is any set of entity names that is CLOSED: the first
    declaration of each member has a value  plain & m ; plain [< ...]  with m again in S (CycleContent.v:
